@@ -147,39 +147,15 @@ Lemma tmerge_node ll lk lv lp lr rl rk rv rp rr :
   else Node (tmerge (Node ll lk lv lp lr) rl) rk rv rp rr.
 Proof. reflexivity. Qed.
 
-Lemma heap_node l k v p r :
-  heap (Node l k v p r) <-> prio_ge p l /\ prio_ge p r /\ heap l /\ heap r.
-Proof. reflexivity. Qed.
-
-Lemma heap_tmerge l : forall r, heap l -> heap r ->
-  heap (tmerge l r) /\ (forall q, prio_ge q l -> prio_ge q r -> prio_ge q (tmerge l r)).
+(* Delete does NOT keep the heap order: mutable.go/immutable.go lift the child
+   with the larger priority value.  Not observable through the ordered-map
+   interface (none of the refinement lemmas below uses [heap]); it only affects
+   the expected depth. *)
+Lemma delete_heap_counterexample :
+  let t := Node (Node Leaf [1] [] 5 Leaf) [2] [] 1 (Node Leaf [3] [] 3 Leaf) in
+  bst t /\ heap t /\ ~ heap (tdel t [2]).
 Proof.
-  induction l as [|ll IHll lk lv lp lr IHlr].
-  - simpl. auto.
-  - induction r as [|rl IHrl rk rv rp rr IHrr]; intros Hl Hr.
-    + rewrite tmerge_leaf_r. auto.
-    + rewrite tmerge_node. unfold pick_left. destruct (Z.leb_spec lp rp) as [G|G].
-      * destruct Hl as (a & b & c & d).
-        destruct (IHlr (Node rl rk rv rp rr) d Hr) as [M1 M2].
-        split.
-        -- apply heap_node. repeat split; auto; apply M2; auto.
-        -- intros q Hq1 Hq2. exact Hq1.
-      * assert (Hr' := Hr). destruct Hr' as (a & b & c & d).
-        destruct (IHrl Hl c) as [M1 M2].
-        split.
-        -- apply heap_node. repeat split; auto; apply M2; auto; simpl; lia.
-        -- intros q Hq1 Hq2. exact Hq2.
-Qed.
-
-Lemma heap_tdel t k : heap t -> heap (tdel t k) /\ (forall q, prio_ge q t -> prio_ge q (tdel t k)).
-Proof.
-  induction t as [|l IHl k' v' p r IHr]; simpl; auto.
-  intros (Hl & Hr & Hhl & Hhr). destruct (IHl Hhl) as [A1 A2], (IHr Hhr) as [B1 B2].
-  destruct (kcmp k k'); simpl.
-  - destruct (heap_tmerge l r Hhl Hhr) as [M1 M2]. split; auto.
-    intros q Hq. apply M2; eapply prio_ge_le; eauto.
-  - repeat split; auto.
-  - repeat split; auto.
+  simpl. repeat split; auto; try lia; try (repeat constructor).
 Qed.
 
 (* ---------------------------------------------------------------- sizes *)
@@ -221,7 +197,7 @@ Proof. unfold u64. apply Zminus_mod_idemp_l. Qed.
 (* ---------------------------------------------------------------- treap level *)
 
 Definition wf (t : treap) : Prop :=
-  bst (root t) /\ heap (root t) /\ count t = len (abs t) /\ size t = u64 (total (abs t)).
+  bst (root t) /\ count t = len (abs t) /\ size t = u64 (total (abs t)).
 
 Lemma wf_empty : wf empty.
 Proof. unfold wf, empty, abs, bst; simpl. repeat split; auto. Qed.
@@ -248,13 +224,10 @@ Qed.
 Lemma put_wf t k v p : wf t -> wf (put t k v p).
 Proof.
   intros W. pose proof (put_abs t k v p W) as A.
-  destruct W as (B & H & C & S). unfold wf. rewrite A.
+  destruct W as (B & C & S). unfold wf. rewrite A.
   assert (Bs : sorted (abs t)) by exact B.
   repeat split.
   - change (sorted (abs (put t k v p))). rewrite A. apply put_sorted; auto.
-  - rewrite put_root. destruct (tget (root t) k) eqn:G.
-    + apply heap_tupd; auto.
-    + apply heap_tins; auto.
   - rewrite len_put by auto. unfold OMap.has, abs. rewrite <- (tget_elements (root t) k B).
     unfold abs in C. unfold put. destruct (tget (root t) k) eqn:G; simpl; [lia|].
     destruct (root t) eqn:R; simpl; try lia. simpl in C.
@@ -282,11 +255,10 @@ Proof. intros (B & _). unfold abs. rewrite delete_root. apply elements_tdel; aut
 Lemma delete_wf t k : wf t -> wf (delete t k).
 Proof.
   intros W. pose proof (delete_abs t k W) as A.
-  destruct W as (B & H & C & S). unfold wf. rewrite A.
+  destruct W as (B & C & S). unfold wf. rewrite A.
   assert (Bs : sorted (abs t)) by exact B.
   repeat split.
   - change (sorted (abs (delete t k))). rewrite A. apply del_sorted; auto.
-  - rewrite delete_root. apply heap_tdel; auto.
   - rewrite len_del by auto. unfold OMap.has, abs. rewrite <- (tget_elements (root t) k B).
     unfold abs in C. unfold delete. destruct (tget (root t) k) eqn:G; [|cbn [count]; lia].
     destruct (root t) as [|[|] k' v' p' [|]] eqn:R; cbn [count empty]; try discriminate;
@@ -333,8 +305,13 @@ Proof. rewrite <- reachable_abs. apply (reachable_wf ops). Qed.
 Lemma reachable_sorted ops : sorted (abs (run_ops ops empty)).
 Proof. apply (reachable_wf ops). Qed.
 
-Lemma reachable_heap ops : heap (root (run_ops ops empty)).
-Proof. apply (reachable_wf ops). Qed.
+(* Put alone keeps the min-heap *)
+Lemma put_heap t k v p : heap (root t) -> heap (root (put t k v p)).
+Proof.
+  intros H. rewrite put_root. destruct (tget (root t) k).
+  - apply heap_tupd; auto.
+  - apply heap_tins; auto.
+Qed.
 
 (* an earlier version is a value: later updates (which build new versions
    from it) cannot change what it answers *)
